@@ -192,7 +192,8 @@ func cmdRandom(args []string) {
 	findings := []Finding{}
 	deviations := [][]interface{}{}
 	for t := 0; t < *n; t++ {
-		steps := genJournalTrace(w, rnd, *ln, *depth, t%2 == 0)
+		// (a world of its own per trace: block boundaries commit into the state database)
+		steps := genJournalTrace(buildWorld(u), rnd, *ln, *depth, t%2 == 0)
 		fsx, events, nr := runJournal(w, t, steps, true)
 		nrev += nr
 		total += len(events)
